@@ -23,9 +23,9 @@ func ruleL7sel(r *Report, sel func(field string) bool, withRead bool) {
 	hw := r.Rule("L7.write", "L", "every site that replaces the header of cross-block column state (chunks slice, whole-collection bitmap, enum table) holds a common exclusive lock", 1)
 	hr := r.Rule("L7.read", "L", "every reader of cross-block column state holds the lock under which that state's header is replaced (the block latch does not order accesses of different blocks)", 0)
 	type site struct {
-		ins  ssa.Instruction
-		s    *LSite
-		fn   string
+		ins ssa.Instruction
+		s   *LSite
+		fn  string
 	}
 	type acc struct{ writes, reads []site }
 	fields := map[string]*acc{}
